@@ -1,6 +1,7 @@
 SPECIFICATION Spec
 CONSTANT Mode = "fixed"
 CONSTANT IntoMode = "demorgan"
+CONSTANT EncMode = "faithful"
 CONSTANT Tier = "quick"
 INVARIANT LayoutRoundTrip
 INVARIANT IndexInjective
